@@ -16,6 +16,8 @@ def record(level, profile, n=N):
     r = np.random.RandomState(977)
     u = 0.6 * np.cos(0.9 * np.arange(n) + 0.3) + 0.4 * (2 * r.rand(n) - 1)
     u = np.clip(u, -1, 1)
+    if profile == 'real':
+        return u * level + 0.123
     if profile == 'signed':
         v = np.round(u * level)
     else:
@@ -26,6 +28,22 @@ def record(level, profile, n=N):
 def carry(values, carrier):
     if carrier == 'list':
         return [int(v) for v in values]
+    if carrier == 'list-float':
+        return [float(v) for v in values]
+    if carrier == 'readonly':
+        out = values.copy()
+        out.setflags(write=False)
+        return out
+    if carrier == 'big-endian':
+        return values.astype('>f8')
+    if carrier == 'negative-stride':
+        return values[::-1].copy()[::-1]
+    if carrier == 'column-of-2d':
+        return np.asfortranarray(np.stack([values, 7 - values * 3], axis=1))[:, 0]
+    if carrier == 'longdouble':
+        return values.astype(np.longdouble)
+    if carrier == 'masked':
+        return np.ma.array(values)
     out = values.astype(getattr(np, carrier))
     if not np.all(out.astype(float) == values):
         raise core.MachineryError('record is not exactly representable in %s although Carrier.tla admits it' % carrier)
@@ -58,11 +76,13 @@ def run_carrier(chk, prop, exprs, part='carrier'):
     finally:
         tlc.cleanup(res.workdir)
     seen = {c['carrier'] for c in calls}
-    if len(seen) < 10:
+    if len(seen) < 17:
         raise core.MachineryError('Carrier.tla enumerated only the carriers %s' % sorted(seen))
     if chk.tier == 'quick':
         # the largest admissible level of each carrier/profile (where wrap-around shows first) and the smallest one
         calls = [c for c in calls if c['maximal'] or c['level'] == 100]
+        # (the memory layouts: half of them per token, rotating)
+        calls = [c for c in calls if c['profile'] != 'real' or ((c['token'] + sum(map(ord, c['carrier']))) % 2 == 0) or len(exprs) <= 3]
     calls.sort(key=lambda c: (c['token'], c['carrier'], c['level'], c['profile']))
     ns = _ns()
     refs = {}
@@ -84,13 +104,13 @@ def run_carrier(chk, prop, exprs, part='carrier'):
             continue
         if isinstance(got, Exception):
             chk.violation('%s:carrier:%s:%s:raises' % (prop, fn, c['carrier']),
-                          '`%s` raises %r for an integer-valued record (|x| <= %d, %s) carried as %s; the same values as float64 are accepted'
+                          '`%s` raises %r for a record (|x| <= %d, %s) carried as %s; the same values as a plain float64 array are accepted'
                           % (ex, got, c['level'], c['profile'], c['carrier']), case)
             continue
         rtol = 2e-3 if c['carrier'] == 'float32' else 1e-9
         if not same(got, ref, rtol=rtol):
             chk.violation('%s:carrier:%s:%s' % (prop, fn, c['carrier']),
-                          '`%s` on an integer-valued record (|x| <= %d, %s) carried as %s differs from the result for the same values as float64'
+                          '`%s` on a record (|x| <= %d, %s) carried as %s differs from the result for the same values as a plain float64 array'
                           % (ex, c['level'], c['profile'], c['carrier']), case)
     chk.replayed += len(calls)
     chk.count(part, 'calls', len(calls))
